@@ -24,8 +24,9 @@ PROP = "C12"
 ALPHABET = [" ", "\n", "\r", "\t", "'", '"', "\\", "a", "é", "🐍", "\x00", "\x7f", "\u2028", "{", "#", "\x0c"]
 POSITIONS = ["whole", "list", "tuple1", "dictkey", "dictval", "callarg", "ins_list", "ins_dict", "ins_call", "in_create", "in_fix", "sub_key", "sub_val", "nested"]
 FORMATTERS = ["black", "noblack", "cmd_black", "cmd_cat"]
+PIECES = ["'''", '"""', "\n", "\\", "a", '"', "'", " "]
 RULE = (
-    "strings: ALL strings up to length 2 (quick) / 3 (thorough) over a 16-symbol adversarial alphabet (blank, LF, CR, TAB, both quotes, backslash, "
+    "strings: ALL strings up to length 2 (quick) / 3 (thorough) over a 16-symbol adversarial alphabet and ALL products of up to 3 (quick) / 4 (thorough) multi-character pieces (both triple quotes, LF, backslash, quotes, blank) (alphabet: blank, LF, CR, TAB, both quotes, backslash, "
     "a, é, 🐍, NUL, DEL, U+2028, {, #, FF) plus seeded random str (full Unicode incl. lone surrogates excluded: not encodable in a UTF-8 file) and bytes up to length 200; "
     "each placed in 14 positions (whole value, list/tuple element, dict key/value, constructor argument, element/entry/argument inserted by a fix, "
     "`in` member created/appended, sub-snapshot key/value, nested) with formatter in {black, black missing, format-command black, format-command cat}. "
@@ -190,7 +191,7 @@ def run_shard(args):
     maxlen = {"quick": 2, "thorough": 3}[tier]
     nrandom = {"quick": 60, "thorough": 3000}[tier]  # per shard
     per_file = 50
-    out = {"evaluations": 0, "signatures": set(), "samples": [], "violations": [], "counters": {"files": 0, "crashed": 0, "reexec_events": 0, "enumerated_strings": 0, "random_strings": 0, "by_formatter": {}, "contract_evals": {}}, "inconclusive": []}
+    out = {"evaluations": 0, "signatures": set(), "samples": [], "violations": [], "counters": {"enumerated_piece_strings": 0, "files": 0, "crashed": 0, "reexec_events": 0, "enumerated_strings": 0, "random_strings": 0, "by_formatter": {}, "contract_evals": {}}, "inconclusive": []}
     mon = contracts.install_string_contracts()
     rng = random.Random(f"{args.seed}/{PROP}/{args.shard}")
     work = []  # (string, pos, fmt)
@@ -205,6 +206,17 @@ def run_shard(args):
             work.append((s, pos, "noblack"))
         if k % 11 == 0:
             work.append((s, rng.choice(POSITIONS), rng.choice(["cmd_black", "cmd_cat"])))
+    # second enumerated sub-space: products of multi-character pieces (both triple quotes, line
+    # ends, backslash, quotes) - the shortest strings that reach the escaping corner cases of
+    # the triple-quoted path
+    pk = {"quick": 3, "thorough": 4}[tier]
+    piece_strings = ["".join(t) for k in range(1, pk + 1) for t in itertools.product(PIECES, repeat=k)]
+    for k, s in enumerate(piece_strings[args.shard :: args.nshards]):
+        for pos in ("whole", "dictval", "ins_list"):
+            work.append((s, pos, "black"))
+        if k % 7 == 0:
+            work.append((s, "nested", "noblack"))
+    out["counters"]["enumerated_piece_strings"] = len(piece_strings[args.shard :: args.nshards])
     for _ in range(nrandom):
         s = random_string(rng)
         out["counters"]["random_strings"] += 1
@@ -243,7 +255,7 @@ def run_shard(args):
     for v in mon.failures[:20]:
         out["violations"].append({"kind": "contract:" + v["contract"], "detail": v, "witness": v, "finding": None})
     out["signatures"] = sorted(out["signatures"])
-    out["extra"] = {"enumerated_subspace": f"all strings of length <= {maxlen} over {len(ALPHABET)} symbols = {len(enum)} strings x {len(POSITIONS)} positions (black) + 4 positions (black missing)", "enumerated_complete": True}
+    out["extra"] = {"enumerated_subspace": f"all strings of length <= {maxlen} over {len(ALPHABET)} symbols = {len(enum)} strings x {len(POSITIONS)} positions (black) + 4 positions (black missing); and all products of up to {pk} pieces from {PIECES!r} in 3 positions", "enumerated_complete": True}
     return out
 
 
